@@ -67,6 +67,62 @@ fn main() {
             std::process::exit(1);
         }
     }}}}
+    // IntoIterator forms of the map / filter_map adapters, over one-at-a-time and BATCHING sources
+    {
+        struct Batch { outs: Vec<O>, pos: usize, batch: usize }
+        impl Source for Batch {
+            type Item<'x> = u8;
+            type Error = EA;
+            fn try_for_some_item<E, F>(&mut self, mut f: F) -> Result<bool, StreamError<EA, E>>
+            where E: std::error::Error + Send + Sync + 'static, F: FnMut(u8) -> Result<(), E> {
+                if self.pos >= self.outs.len() || self.outs[self.pos] == O::End { self.pos = self.outs.len(); return Ok(false); }
+                let mut k = 0;
+                while k < self.batch && self.pos < self.outs.len() {
+                    let o = self.outs[self.pos];
+                    if o == O::End { self.pos = self.outs.len(); break; }
+                    self.pos += 1;
+                    match o { O::Err(e) => return Err(StreamError::SourceError(EA(e))), O::Ok(v) => f(v).map_err(StreamError::SinkError)?, O::End => unreachable!() }
+                    k += 1;
+                }
+                Ok(true)
+            }
+        }
+        for outs in &seqs { for batch in 1..=3usize { for which in 0..2 {
+            n += 1;
+            let src = Batch { outs: outs.clone(), pos: 0, batch };
+            // a consumer that stops pulling at the first error (what happens if it goes on is its own business)
+            let mut got: Vec<Result<u8, EA>> = vec![];
+            if which == 0 { for x in src.map_items(mapf).into_iter() { let e = x.is_err(); got.push(x); if e { break; } } }
+            else { for x in src.filter_map_items(fmap).into_iter() { let e = x.is_err(); got.push(x); if e { break; } } }
+            let mut want: Vec<Result<u8, EA>> = vec![];
+            for o in outs { match o {
+                O::End => break,
+                O::Err(e) => { want.push(Err(EA(*e))); break; }
+                O::Ok(v) => { let y = if which == 0 { Some(mapf(*v)) } else { fmap(*v) }; if let Some(y) = y { want.push(Ok(y)); } }
+            } }
+            if got != want {
+                println!("{{\"mismatch\":\"{}_items(..).into_iter() yields {:?}, expected {:?}\",\"outcomes\":\"{:?}\",\"batch\":{}}}", if which == 0 { "map" } else { "filter_map" }, got, want, outs, batch);
+                std::process::exit(1);
+            }
+            // whole-stream driving of the batching source through a chain
+            for fail_at in 0..4usize {
+                n += 1;
+                let mut seen = vec![]; let mut calls = 0;
+                let r = Batch { outs: outs.clone(), pos: 0, batch }.filter_items(pred).map_items(mapf).try_for_each_item(|x| -> Result<(), EB> { calls += 1; if seen.len() == fail_at { return Err(EB(99)); } seen.push(x); Ok(()) });
+                let mut w = vec![]; let mut verdict: Result<(), StreamError<EA, EB>> = Ok(());
+                for o in outs { match o {
+                    O::End => break,
+                    O::Err(e) => { verdict = Err(StreamError::SourceError(EA(*e))); break; }
+                    O::Ok(v) => if pred(v) { if w.len() == fail_at { verdict = Err(StreamError::SinkError(EB(99))); break; } w.push(mapf(*v)); }
+                } }
+                let same = match (&r, &verdict) { (Ok(()), Ok(())) => true, (Err(StreamError::SourceError(a)), Err(StreamError::SourceError(b))) => a == b, (Err(StreamError::SinkError(a)), Err(StreamError::SinkError(b))) => a == b, _ => false };
+                if seen != w || !same || calls != w.len() + if matches!(verdict, Err(StreamError::SinkError(_))) { 1 } else { 0 } {
+                    println!("{{\"mismatch\":\"batching source through filter+map: consumer saw {:?} in {} calls, expected {:?}\",\"outcomes\":\"{:?}\",\"batch\":{},\"sink_fails_at\":{}}}", seen, calls, w, outs, batch, fail_at);
+                    std::process::exit(1);
+                }
+            }
+        }}}
+    }
     // Rio-backed parser sources: multi-triple statements, sink fault at every position, whole-stream and step-wise
     {
         use sophia_api::source::TripleSource;
